@@ -508,6 +508,14 @@ func CheckC08(tier string, seed uint64) int {
 			ss = []Sink{*f.sink}
 		}
 		res, err := judgeOne(b, f.p, ss)
+		// the readers of the slow sinks are real goroutines: what a defective
+		// program loses under them can depend on timing, so try a few times
+		for try := 0; try < 6 && err == nil; try++ {
+			if _, is := classIn(res, cls); is != nil {
+				break
+			}
+			res, err = judgeOne(b, f.p, ss)
+		}
 		if err != nil {
 			trouble = append(trouble, err.Error())
 			continue
